@@ -70,6 +70,13 @@ Definition prec_toks (x : adecl) : list str := match x with DPrec _ ts => ts | _
 Definition epp_keys (x : adecl) : list str := match x with DEpp t _ => [t] | _ => [] end.
 Definition avoid_toks (x : adecl) : list str := match x with DAvoid ts => ts | _ => [] end.
 Definition token_toks (x : adecl) : list str := match x with DToken ts => ts | _ => [] end.
+Definition ik (a : gast) : list str :=
+  match a_implicit_tokens a with Some m => map fst m | None => [] end.
+Definition is_dactiontype (x : adecl) : bool := match x with DActiontype _ => true | _ => false end.
+Definition implicit_toks (x : adecl) : list str := match x with DImplicit ts => ts | _ => [] end.
+(* the duplicate-sensitive part of the AST *)
+Definition dsens (a : gast) :=
+  (a_start a, a_expect a, a_expectrr a, a_precs a, a_epp a, a_avoid_insert a, a_implicit_tokens a).
 
 (* ---- %token ---------------------------------------------------------------- *)
 Lemma ins_declared_frame : forall a o,
@@ -143,6 +150,83 @@ Proof.
     rewrite H1, H2, H3, H4, H5, H6, G1, G2, G3, G4, G5, <- app_assoc. repeat split; reflexivity.
 Qed.
 
+(* ---- the %implicit_tokens map under the other directives ------------------------ *)
+Lemma fold_declared_implicit : forall occs a,
+  a_implicit_tokens (fold_left ins_declared occs a) = a_implicit_tokens a.
+Proof.
+  induction occs as [|o occs IH]; intros a; cbn [fold_left]; [reflexivity|]. rewrite IH.
+  unfold ins_declared, insert_full. destruct (get_index_of (a_tokens a) (fst o)); reflexivity.
+Qed.
+Lemma fold_prec_implicit : forall lvl k occs a,
+  a_implicit_tokens (fold_left (ins_prec lvl k) occs a) = a_implicit_tokens a.
+Proof.
+  intros lvl k. induction occs as [|o occs IH]; intros a; cbn [fold_left]; [reflexivity|]. rewrite IH. reflexivity.
+Qed.
+Lemma fold_avoid_implicit : forall occs a,
+  a_implicit_tokens (fold_left ins_avoid occs a) = a_implicit_tokens a.
+Proof.
+  induction occs as [|o occs IH]; intros a; cbn [fold_left]; [reflexivity|]. rewrite IH.
+  unfold ins_avoid. cbn [a_implicit_tokens upd_avoid]. apply tokens_insert_frame.
+Qed.
+
+(* ---- %implicit_tokens ----------------------------------------------------------- *)
+Lemma ins_implicit_frame : forall a o,
+  a_start (ins_implicit a o) = a_start a /\ a_expect (ins_implicit a o) = a_expect a /\
+  a_expectrr (ins_implicit a o) = a_expectrr a /\ a_precs (ins_implicit a o) = a_precs a /\
+  a_epp (ins_implicit a o) = a_epp a /\ a_avoid_insert (ins_implicit a o) = a_avoid_insert a /\
+  a_implicit_tokens (ins_implicit a o)
+  = Some (match a_implicit_tokens a with Some m => m | None => [] end ++ [o]).
+Proof.
+  intros a o. unfold ins_implicit.
+  pose proof (tokens_insert_frame a (fst o) (snd o)) as [G1 [_ [_ [_ [G4 [G6 [G7 [G5 [G2 [G3 _]]]]]]]]]].
+  cbn [a_start a_expect a_expectrr a_precs a_epp a_avoid_insert a_implicit_tokens upd_implicit].
+  rewrite G1, G2, G3, G4, G5, G6, G7. repeat split; reflexivity.
+Qed.
+
+Lemma fold_implicit_frame : forall occs a m, a_implicit_tokens a = Some m ->
+  a_start (fold_left ins_implicit occs a) = a_start a /\
+  a_expect (fold_left ins_implicit occs a) = a_expect a /\
+  a_expectrr (fold_left ins_implicit occs a) = a_expectrr a /\
+  a_precs (fold_left ins_implicit occs a) = a_precs a /\
+  a_epp (fold_left ins_implicit occs a) = a_epp a /\
+  a_avoid_insert (fold_left ins_implicit occs a) = a_avoid_insert a /\
+  a_implicit_tokens (fold_left ins_implicit occs a) = Some (m ++ occs).
+Proof.
+  induction occs as [|o occs IH]; intros a m Hm; cbn [fold_left].
+  - rewrite app_nil_r. repeat split; try reflexivity. exact Hm.
+  - destruct (ins_implicit_frame a o) as [G1 [G2 [G3 [G4 [G5 [G6 G7]]]]]]. rewrite Hm in G7.
+    destruct (IH (ins_implicit a o) (m ++ [o]) G7) as [H1 [H2 [H3 [H4 [H5 [H6 H7]]]]]].
+    rewrite H1, H2, H3, H4, H5, H6, H7, G1, G2, G3, G4, G5, G6, <- app_assoc. repeat split; reflexivity.
+Qed.
+
+(* ---- %expect-unused -------------------------------------------------------------- *)
+Lemma fold_eu_dsens : forall occs a, dsens (fold_left ins_eu occs a) = dsens a.
+Proof. induction occs as [|o occs IH]; intros a; cbn [fold_left]; [reflexivity|]. rewrite IH. reflexivity. Qed.
+Lemma fold_eu_tokens : forall occs a,
+  a_tokens (fold_left ins_eu occs a) = a_tokens a /\ a_token_directives (fold_left ins_eu occs a) = a_token_directives a.
+Proof.
+  induction occs as [|o occs IH]; intros a; cbn [fold_left]; [split; reflexivity|].
+  destruct (IH (ins_eu a o)) as [H1 H2]. rewrite H1, H2. split; reflexivity.
+Qed.
+
+(* a declaration that leaves the duplicate-sensitive part alone *)
+Lemma summary_same : forall a a' x,
+  dsens a' = dsens a ->
+  is_dstart x = false -> is_dexpect x = false -> is_dexpectrr x = false ->
+  prec_toks x = [] -> epp_keys x = [] -> avoid_toks x = [] -> implicit_toks x = [] ->
+  osome (a_start a') = (if is_dstart x then 1 else osome (a_start a)) /\
+  osome (a_expect a') = (if is_dexpect x then 1 else osome (a_expect a)) /\
+  osome (a_expectrr a') = (if is_dexpectrr x then 1 else osome (a_expectrr a)) /\
+  pk a' = pk a ++ prec_toks x /\
+  ek a' = ek a ++ epp_keys x /\
+  ak a' = ak a ++ avoid_toks x /\
+  ik a' = ik a ++ implicit_toks x.
+Proof.
+  intros a a' x H E1 E2 E3 E4 E5 E6 E7. unfold dsens in H. injection H as H1 H2 H3 H4 H5 H6 H7.
+  unfold pk, ek, ak, ik. rewrite E1, E2, E3, E4, E5, E6, E7, H1, H2, H3, H4, H5, H6, H7, !app_nil_r.
+  repeat split; reflexivity.
+Qed.
+
 (* ---- one declaration ---------------------------------------------------------- *)
 Lemma decl_eff_summary : forall dl off lvl x a,
   osome (a_start (decl_eff dl off lvl x a)) = (if is_dstart x then 1 else osome (a_start a)) /\
@@ -150,56 +234,79 @@ Lemma decl_eff_summary : forall dl off lvl x a,
   osome (a_expectrr (decl_eff dl off lvl x a)) = (if is_dexpectrr x then 1 else osome (a_expectrr a)) /\
   pk (decl_eff dl off lvl x a) = pk a ++ prec_toks x /\
   ek (decl_eff dl off lvl x a) = ek a ++ epp_keys x /\
-  ak (decl_eff dl off lvl x a) = ak a ++ avoid_toks x.
+  ak (decl_eff dl off lvl x a) = ak a ++ avoid_toks x /\
+  ik (decl_eff dl off lvl x a) = ik a ++ implicit_toks x.
 Proof.
-  intros dl off lvl x a. destruct x as [n|ts|k ts|t v|ts|v|v];
-    cbn [decl_eff is_dstart is_dexpect is_dexpectrr prec_toks epp_keys avoid_toks].
-  - (* %start *) unfold pk, ek, ak. cbn. rewrite !app_nil_r. repeat split; reflexivity.
+  intros dl off lvl x a. destruct x as [n|ts|k ts|t v|ts|v|v|t|nm t|t|ss|ts];
+    cbn [decl_eff is_dstart is_dexpect is_dexpectrr prec_toks epp_keys avoid_toks implicit_toks].
+  - (* %start *) unfold pk, ek, ak, ik. cbn. rewrite !app_nil_r. repeat split; reflexivity.
   - (* %token *)
     destruct (fold_declared_frame
                 (tok_occs (dg dl) (dq dl) 0 (off + byte_len (dg dl 0) + byte_len kw_token) ts) a)
       as [H1 [H2 [H3 [H4 [H5 H6]]]]].
-    unfold pk, ek, ak. rewrite H1, H2, H3, H4, H5, H6, !app_nil_r. repeat split; reflexivity.
+    unfold pk, ek, ak, ik. rewrite fold_declared_implicit, H1, H2, H3, H4, H5, H6, !app_nil_r. repeat split; reflexivity.
   - (* %left ... *)
     destruct (fold_prec_frame lvl k
                 (tok_occs (dg dl) (dq dl) 0 (off + byte_len (dg dl 0) + byte_len (kw_assoc k)) ts) a)
       as [H1 [H2 [H3 [H4 [H5 [H6 _]]]]]].
-    unfold ek, ak. rewrite H1, H2, H3, H4, H5, H6, map_fst_tok_occs, !app_nil_r. repeat split; reflexivity.
-  - (* %epp *) unfold pk, ek, ak. cbn [a_start a_expect a_expectrr a_precs a_epp a_avoid_insert upd_epp].
+    unfold ek, ak, ik. rewrite fold_prec_implicit, H1, H2, H3, H4, H5, H6, map_fst_tok_occs, !app_nil_r. repeat split; reflexivity.
+  - (* %epp *) unfold pk, ek, ak, ik. cbn [a_start a_expect a_expectrr a_precs a_epp a_avoid_insert a_implicit_tokens upd_epp].
     rewrite map_app, !app_nil_r. cbn [map fst]. repeat split; reflexivity.
   - (* %avoid_insert *)
     set (occs := tok_occs (dg dl) (dq dl) 0 (off + byte_len (dg dl 0) + byte_len kw_avoid_insert) ts).
     assert (Hocc : map fst occs = ts) by apply map_fst_tok_occs.
     destruct (a_avoid_insert a) as [m|] eqn:Ea.
     + destruct (fold_avoid_frame occs a m Ea) as [H1 [H2 [H3 [H4 [H5 H6]]]]].
-      unfold pk, ek, ak. rewrite H1, H2, H3, H4, H5, H6, Ea, map_app, Hocc, !app_nil_r.
+      unfold pk, ek, ak, ik. rewrite fold_avoid_implicit, H1, H2, H3, H4, H5, H6, Ea, map_app, Hocc, !app_nil_r.
       repeat split; reflexivity.
     + assert (E0 : a_avoid_insert (upd_avoid a (Some [])) = Some []) by reflexivity.
       destruct (fold_avoid_frame occs (upd_avoid a (Some [])) [] E0) as [H1 [H2 [H3 [H4 [H5 H6]]]]].
-      unfold pk, ek, ak. rewrite H1, H2, H3, H4, H5, H6, Ea.
-      cbn [a_start a_expect a_expectrr a_precs a_epp upd_avoid app].
+      unfold pk, ek, ak, ik. rewrite fold_avoid_implicit, H1, H2, H3, H4, H5, H6, Ea.
+      cbn [a_start a_expect a_expectrr a_precs a_epp a_implicit_tokens upd_avoid app].
       rewrite Hocc, !app_nil_r. repeat split; reflexivity.
-  - (* %expect *) unfold pk, ek, ak. cbn. rewrite !app_nil_r. repeat split; reflexivity.
-  - (* %expect-rr *) unfold pk, ek, ak. cbn. rewrite !app_nil_r. repeat split; reflexivity.
+  - (* %expect *) unfold pk, ek, ak, ik. cbn. rewrite !app_nil_r. repeat split; reflexivity.
+  - (* %expect-rr *) unfold pk, ek, ak, ik. cbn. rewrite !app_nil_r. repeat split; reflexivity.
+  - (* %actiontype *) apply (summary_same a a (DActiontype t)); reflexivity.
+  - (* %parse-param *) apply (summary_same a _ (DParseParam nm t)); reflexivity.
+  - (* %parse-generics *) apply (summary_same a _ (DParseGenerics t)); reflexivity.
+  - (* %expect-unused *) apply (summary_same a _ (DExpectUnused ss)); try reflexivity. apply fold_eu_dsens.
+  - (* %implicit_tokens *)
+    set (occs := tok_occs (dg dl) (dq dl) 0 (off + byte_len (dg dl 0) + byte_len kw_implicit_tokens) ts).
+    assert (Hocc : map fst occs = ts) by apply map_fst_tok_occs.
+    destruct (a_implicit_tokens a) as [m|] eqn:Ea.
+    + destruct (fold_implicit_frame occs a m Ea) as [H1 [H2 [H3 [H4 [H5 [H6 H7]]]]]].
+      unfold pk, ek, ak, ik. rewrite H1, H2, H3, H4, H5, H6, H7, Ea, map_app, Hocc, !app_nil_r.
+      repeat split; reflexivity.
+    + assert (E0 : a_implicit_tokens (upd_implicit a (Some [])) = Some []) by reflexivity.
+      destruct (fold_implicit_frame occs (upd_implicit a (Some [])) [] E0) as [H1 [H2 [H3 [H4 [H5 [H6 H7]]]]]].
+      unfold pk, ek, ak, ik. rewrite H1, H2, H3, H4, H5, H6, H7, Ea.
+      cbn [a_start a_expect a_expectrr a_precs a_epp a_avoid_insert upd_implicit app].
+      rewrite Hocc, !app_nil_r. repeat split; reflexivity.
 Qed.
+
+Lemma decl_gat_summary : forall dl off x g,
+  osome (decl_gat dl off x g) = (if is_dactiontype x then 1 else osome g).
+Proof. intros dl off x g. destruct x; reflexivity. Qed.
 
 Lemma osome_0 : forall A (o : option A), osome o = 0 -> o = None.
 Proof. intros A [x|] H; [discriminate H | reflexivity]. Qed.
 
 (* ---- the chained preconditions, from any AST ------------------------------------ *)
-Lemma decls_pre_gen : forall l ds d off lvl a,
+Lemma decls_pre_gen : forall l ds d off lvl a g,
   osome (a_start a) + List.length (filter is_dstart ds) <= 1 ->
   osome (a_expect a) + List.length (filter is_dexpect ds) <= 1 ->
   osome (a_expectrr a) + List.length (filter is_dexpectrr ds) <= 1 ->
   NoDup (pk a ++ flat_map prec_toks ds) ->
   NoDup (ek a ++ flat_map epp_keys ds) ->
   NoDup (ak a ++ flat_map avoid_toks ds) ->
-  decls_pre l d off lvl ds a.
+  NoDup (ik a ++ flat_map implicit_toks ds) ->
+  osome g + List.length (filter is_dactiontype ds) <= 1 ->
+  decls_pre l d off lvl ds a g.
 Proof.
-  intros l ds. induction ds as [|x ds IH]; intros d off lvl a Hs He Hr Hp Hk Hv; cbn [decls_pre]; [exact I|].
+  intros l ds. induction ds as [|x ds IH]; intros d off lvl a g Hs He Hr Hp Hk Hv Himp Hg; cbn [decls_pre]; [exact I|].
   split.
   - (* the declaration is accepted *)
-    destruct x as [n|ts|k ts|t v|ts|v|v]; cbn [decl_pre].
+    destruct x as [n|ts|k ts|t v|ts|v|v|t|nm t|t|ss|ts]; cbn [decl_pre].
     + cbn [filter is_dstart List.length] in Hs. apply osome_0. lia.
     + exact I.
     + cbn [flat_map prec_toks] in Hp. rewrite app_assoc in Hp.
@@ -211,11 +318,19 @@ Proof.
     + cbn [flat_map avoid_toks] in Hv. rewrite app_assoc in Hv.
       destruct (nodup_app_inv _ _ _ Hv) as [Hv1 _]. destruct (nodup_app_inv _ _ _ Hv1) as [_ [Hts Hd]].
       split; [exact Hts|]. intros t Ht. unfold ak in Hd. destruct (a_avoid_insert a) as [m|]; [|exact I].
-      apply assoc_get_not_in. intros Hi. exact (Hd t Hi Ht).
+      apply assoc_get_not_in. intros Hin. exact (Hd t Hin Ht).
     + cbn [filter is_dexpect List.length] in He. apply osome_0. lia.
     + cbn [filter is_dexpectrr List.length] in Hr. apply osome_0. lia.
+    + cbn [filter is_dactiontype List.length] in Hg. apply osome_0. lia.
+    + exact I.
+    + exact I.
+    + exact I.
+    + cbn [flat_map implicit_toks] in Himp. rewrite app_assoc in Himp.
+      destruct (nodup_app_inv _ _ _ Himp) as [Hi1 _]. destruct (nodup_app_inv _ _ _ Hi1) as [_ [Hts Hd]].
+      split; [exact Hts|]. intros t Ht. unfold ik in Hd. destruct (a_implicit_tokens a) as [m|]; [|exact I].
+      apply assoc_get_not_in. intros Hin. exact (Hd t Hin Ht).
   - (* the rest, from the AST it leaves *)
-    destruct (decl_eff_summary (dlay_of l d) off lvl x a) as [E1 [E2 [E3 [E4 [E5 E6]]]]].
+    destruct (decl_eff_summary (dlay_of l d) off lvl x a) as [E1 [E2 [E3 [E4 [E5 [E6 E7]]]]]].
     apply IH.
     + rewrite E1. destruct x; cbn [filter is_dstart List.length] in *; lia.
     + rewrite E2. destruct x; cbn [filter is_dexpect List.length] in *; lia.
@@ -223,6 +338,8 @@ Proof.
     + rewrite E4, <- app_assoc. exact Hp.
     + rewrite E5, <- app_assoc. exact Hk.
     + rewrite E6, <- app_assoc. exact Hv.
+    + rewrite E7, <- app_assoc. exact Himp.
+    + rewrite decl_gat_summary. destruct x; cbn [filter is_dactiontype List.length] in *; lia.
 Qed.
 
 (* ---- the components of an abstract grammar, declaration by declaration ---------- *)
@@ -244,7 +361,9 @@ Qed.
 
 Lemma decls_pre_wf : decls_pre_wf_stmt.
 Proof.
-  intros l ag [Hs [He [Hr [Hp [Hk [Hv _]]]]]]. unfold count_decl in Hs, He, Hr.
+  intros k l ag Hag.
+  destruct Hag as [Hs [He [Hr [Hp [Hk [Hv [_ [_ [_ [_ [_ [_ [_ [_ [Hat [_ [_ [Hi _]]]]]]]]]]]]]]]]]].
+  unfold count_decl in Hs, He, Hr, Hat.
   apply decls_pre_gen.
   - exact Hs.
   - exact He.
@@ -252,6 +371,8 @@ Proof.
   - unfold ag_precs in Hp. rewrite ag_precs_toks in Hp. exact Hp.
   - unfold ag_epp in Hk. rewrite ag_epp_keys in Hk. exact Hk.
   - exact Hv.
+  - exact Hi.
+  - exact Hat.
 Qed.
 
 (* ======================================================================== *)
@@ -356,12 +477,30 @@ Proof.
   apply IH. apply tok_inv_ins_avoid. exact H.
 Qed.
 
+Lemma tok_inv_ins_implicit : forall D a o, tok_inv D a -> tok_inv D (ins_implicit a o).
+Proof.
+  intros D a o H. unfold ins_implicit.
+  apply (tok_inv_same D (tokens_insert a (fst o) (snd o))); [reflexivity | reflexivity|].
+  apply tok_inv_tokens_insert. exact H.
+Qed.
+
+Lemma tok_inv_fold_implicit : forall D occs a, tok_inv D a -> tok_inv D (fold_left ins_implicit occs a).
+Proof.
+  intros D occs. induction occs as [|o occs IH]; intros a H; cbn [fold_left]; [exact H|].
+  apply IH. apply tok_inv_ins_implicit. exact H.
+Qed.
+
+Lemma tok_inv_fold_eu : forall D occs a, tok_inv D a -> tok_inv D (fold_left ins_eu occs a).
+Proof.
+  intros D occs a H. destruct (fold_eu_tokens occs a) as [Ht Hd]. exact (tok_inv_same D a _ Ht Hd H).
+Qed.
+
 Lemma tok_inv_decl_eff : forall D dl off lvl x a,
   tok_inv D a -> tok_inv (fun y => D y || mem_str (token_toks x) y) (decl_eff dl off lvl x a).
 Proof.
   intros D dl off lvl x a H.
   assert (Hnil : forall y, D y = D y || mem_str [] y) by (intros y; cbn; rewrite orb_false_r; reflexivity).
-  destruct x as [n|ts|k ts|t v|ts|v|v]; cbn [decl_eff token_toks].
+  destruct x as [n|ts|k ts|t v|ts|v|v|t|nm t|t|ss|ts]; cbn [decl_eff token_toks].
   - apply (tok_inv_ext D _ _ Hnil). apply (tok_inv_same D a); [reflexivity | reflexivity | exact H].
   - apply (tok_inv_ext (fun y => D y || mem_str (map fst
              (tok_occs (dg dl) (dq dl) 0 (off + byte_len (dg dl 0) + byte_len kw_token) ts)) y)).
@@ -374,6 +513,13 @@ Proof.
     apply (tok_inv_same D a); [reflexivity | reflexivity | exact H].
   - apply (tok_inv_ext D _ _ Hnil). apply (tok_inv_same D a); [reflexivity | reflexivity | exact H].
   - apply (tok_inv_ext D _ _ Hnil). apply (tok_inv_same D a); [reflexivity | reflexivity | exact H].
+  - apply (tok_inv_ext D _ _ Hnil). exact H.
+  - apply (tok_inv_ext D _ _ Hnil). apply (tok_inv_same D a); [reflexivity | reflexivity | exact H].
+  - apply (tok_inv_ext D _ _ Hnil). apply (tok_inv_same D a); [reflexivity | reflexivity | exact H].
+  - apply (tok_inv_ext D _ _ Hnil). apply tok_inv_fold_eu. exact H.
+  - apply (tok_inv_ext D _ _ Hnil). apply tok_inv_fold_implicit.
+    destruct (a_implicit_tokens a); [exact H|].
+    apply (tok_inv_same D a); [reflexivity | reflexivity | exact H].
 Qed.
 
 Lemma tok_inv_decls_eff : forall l ds D d off lvl a,
